@@ -16,6 +16,7 @@ EXPLANATION = (
     "only by the two module-level loops over builtins and Pyro5.errors under issubclass filters; imports inside decode "
     "functions are limited to the package and sqlite3/marshal; msgpack extension records go through ext_hook (unknown codes refused); "
     'Also decided (round 9): Every attribute a Proxy method assigns on self is declared in Proxy.__pyroAttributes (otherwise __setstate__ connects while decoding). '
+    'Also decided (round 10): The converter registries are never re-bound (one shared table per direction, edited in place). '
     "constructors reachable from the decoder do not inspect the values they wrap. Not decided: what the trusted third-party decoders can build, "
     "side effects of exception constructors."
 )
